@@ -100,7 +100,7 @@ def r1_traversals(ctx):
     if fn is not None:
         inner = [f2 for f2 in ast.fns_named(PR, "inner") if f2.qual.endswith("Ranges::try_for_each_value::inner")]
         t = flatp(show(inner[0].body)) if inner else ""
-        if t != flatp("{for_,valueinv{fvalue?;};Ok}"):
+        if not same(t, "{for_,valueinv{fvalue?;};Ok}"):
             r.viol("R1:Ranges::try_for_each_value", "does not visit every branch in order: %s" % t, file=fn.file, line=fn.line)
         else:
             r.inst("Ranges::try_for_each_value", "for (_, value) in v { f(value)? }")
@@ -140,7 +140,7 @@ def r2_naming(ctx):
         r.missing("t! InterpolatedValue::format_ident")
     else:
         t = flat(show(fn.body))
-        if t != '{ifvariable{format_ident!("var_{}",ident)}else{format_ident!("comp_{}",ident)}}':
+        if not same(t, '{ifvariable{format_ident!("var_{}",ident)}else{format_ident!("comp_{}",ident)}}'):
             r.viol("R2:t!#format_ident", "t! builds argument setters as %s" % t, file=fn.file, line=fn.line)
         else:
             r.inst("t! format_ident", "var_<name> / comp_<name>")
@@ -277,7 +277,7 @@ def r3_locale_consistency(ctx, prog):
         r.inst("ForeignKey::new", "push_path(locale, current_key_path) on every path")
     fn = ctx.ast.fn(PM, "resolve_foreign_keys")
     t = flatp(show(fn.body)) if fn else ""
-    if t != flatp('{forlocale,value_pathinforeign_keys_paths{letvalue=get_value_at_pathvalues,&locale,&value_path.unwrap_at"resolve_foreign_keys_1";value.resolve_foreign_keyvalues,&locale,default_locale,&value_path?;};Ok}'):
+    if not same(t, '{forlocale,value_pathinforeign_keys_paths{letvalue=get_value_at_pathvalues,&locale,&value_path.unwrap_at"resolve_foreign_keys_1";value.resolve_foreign_keyvalues,&locale,default_locale,&value_path?;};Ok}'):
         r.viol("R3:resolve_foreign_keys#all-paths", "resolve_foreign_keys no longer resolves every recorded (locale, path) in its own locale: %s" % t[:200], file=PM)
     else:
         r.inst("resolve_foreign_keys", "for every recorded (locale, path): value.resolve_foreign_key(values, &locale, default_locale, &path)")
